@@ -41,6 +41,8 @@ def configs(thorough, rng):
         for body, at in (("one", -1), ("none", -1), ("three", 1), ("big", -1)):
             d = dict(c)
             d.update(body=body, raise_at=at)
+            if at >= 0:
+                d["raise_kind"] = ["Exception", "KeyboardInterrupt", "SystemExit", "GeneratorExit"][len(extra) % 4]
             extra.append(d)
     for c in out:
         if not c["overwrite"] and not c["dest_present"]:
